@@ -25,7 +25,7 @@ def parseRec : List String → Option Rec
     if ty == tRRSIG then
       pure { base with covered := ← nat? a, signer := parseDName b, labels := ← nat? c }
     else if ty == tDNSKEY then
-      pure { base with tag := ← nat? a, alg := ← nat? b, algSupp := c == "1" }
+      pure { base with tag := ← nat? a, alg := ← nat? b, algSupp := c == "1", digSupp := d == "1" }
     else if ty == tDS then
       pure { base with tag := ← nat? a, alg := ← nat? b, algSupp := c == "1", digSupp := d == "1" }
     else if ty == tNSEC then
